@@ -1,0 +1,76 @@
+//! Verification hooks. Compiled only with `--cfg uflow_verif`; never part of a normal build.
+//!
+//! Provides a virtual clock, deterministic nonces and re-exports of internal types so that an
+//! external harness can drive the protocol logic deterministically.
+
+#![allow(missing_docs)]
+
+use std::cell::Cell;
+use std::cell::RefCell;
+use std::collections::VecDeque;
+use std::time;
+
+thread_local! {
+    static CLOCK_ENABLED: Cell<bool> = Cell::new(false);
+    static NOW_MS: Cell<u64> = Cell::new(0);
+    static NONCE_SEED: Cell<Option<u32>> = Cell::new(None);
+    static NONCE_QUEUE: RefCell<VecDeque<u32>> = RefCell::new(VecDeque::new());
+}
+
+pub fn enable_clock(enabled: bool) {
+    CLOCK_ENABLED.with(|c| c.set(enabled));
+}
+
+pub fn clock_enabled() -> bool {
+    CLOCK_ENABLED.with(|c| c.get())
+}
+
+pub fn set_now_ms(now_ms: u64) {
+    NOW_MS.with(|c| c.set(now_ms));
+}
+
+pub fn now_ms() -> u64 {
+    NOW_MS.with(|c| c.get())
+}
+
+/// The instant `time_base` plus the virtual time elapsed since the owner was created (at virtual
+/// time `t0_ms`). Falls back to the real instant while the virtual clock is disabled.
+pub fn instant(real_now: time::Instant, time_base: time::Instant, t0_ms: u64) -> time::Instant {
+    if clock_enabled() {
+        time_base + time::Duration::from_millis(now_ms().saturating_sub(t0_ms))
+    } else {
+        real_now
+    }
+}
+
+pub fn set_nonce_seed(seed: Option<u32>) {
+    NONCE_SEED.with(|c| c.set(seed));
+}
+
+/// Deterministic data frame nonce: a fixed function of the frame id and the seed.
+pub fn nonce_bit(frame_id: u32, random: bool) -> bool {
+    match NONCE_SEED.with(|c| c.get()) {
+        Some(seed) => (frame_id.wrapping_mul(2654435761).wrapping_add(seed) >> 13) & 1 != 0,
+        None => random,
+    }
+}
+
+pub fn push_nonce_u32(value: u32) {
+    NONCE_QUEUE.with(|q| q.borrow_mut().push_back(value));
+}
+
+/// Handshake nonces: taken from a queue filled by the harness, random when the queue is empty.
+pub fn nonce_u32(random: u32) -> u32 {
+    NONCE_QUEUE.with(|q| q.borrow_mut().pop_front()).unwrap_or(random)
+}
+
+pub mod frames {
+    pub use crate::frame::*;
+}
+pub use crate::frame::serial::Serialize;
+pub use crate::frame::serial::verif_crc as crc_compute;
+pub use crate::half_connection::Config as HalfConnectionConfig;
+pub use crate::half_connection::FrameSink;
+pub use crate::half_connection::HalfConnection;
+pub use crate::half_connection::PacketSink;
+pub use crate::half_connection::verif_access::*;
